@@ -157,34 +157,27 @@ and of each `depends_on` map gives the same answer. -/
 theorem project_accepted_iff (p : Proj) :
     (run p).cls = "ok" ↔
       (∀ s ∈ p.services, ∀ d ∈ s.deps, d.required = true → d.name ∈ names p) ∧
-      (∀ v ∈ names p, ∀ n, ¬ Reaches (depAdj p) n v v) := by
-  have hbi := build_none_iff (names p) p.disabled p.services []
-  by_cases hb : (build (names p) p.disabled p.services []).1 = none
-  · have hacc := (accepted_iff_acyclic p hb).1
-    constructor
-    · intro h
-      refine ⟨?_, hacc.mp h⟩
-      intro s hs d hd hreq
-      rcases hbi.mp hb s hs d hd with h1 | h1
-      · simpa using h1
-      · rw [hreq] at h1; cases h1
-    · intro h; exact hacc.mpr h.2
-  · constructor
-    · intro h; exact absurd h ((run_cls_of_build p).1 hb)
-    · intro h
-      exfalso
-      apply hb
-      apply hbi.mpr
-      intro s hs d hd
-      by_cases hreq : d.required = true
-      · left; simpa using h.1 s hs d hd hreq
-      · right; simpa using hreq
+      (∀ v ∈ names p, ∀ n, ¬ Reaches (depAdj p) n v v) :=
+  accepted_iff_lemma p
 
 /-- **the dependency graph, without reference to any iteration order**: `c` is a dependency of `v` in the graph handed
 to `walk` iff some service named `v` lists `c` in its `depends_on` and `c` is an enabled service (required or not). -/
 theorem dependency_graph_order_free (p : Proj) (hnd : (names p).Nodup) (v c : Name) :
     c ∈ depAdj p v ↔ ∃ s ∈ p.services, s.name = v ∧ (∃ d ∈ s.deps, d.name = c) ∧ c ∈ names p :=
   mem_depAdj_iff p hnd v c
+
+/-- **every iteration order of the Go maps gives the same verdict and the same graph**: two renderings of the same
+project (`SameMaps`: same services by name, same `depends_on` entries, any order) are accepted or refused together, and
+`c` is a dependency of `v` in the one graph iff it is in the other.  With `collect_walk_graph` (which describes `pre`,
+`post`, `skip` through `depAdj` only) the whole traversal plan is independent of map iteration order. -/
+theorem collect_order_independent (p q : Proj) (hp : (names p).Nodup) (hq : (names q).Nodup) (h : SameMaps p q) :
+    ((run p).cls = "ok" ↔ (run q).cls = "ok") ∧ (∀ v c, c ∈ depAdj p v ↔ c ∈ depAdj q v) :=
+  ⟨⟨accepted_sub hp hq h, accepted_sub hq hp h.symm⟩,
+   fun v c => ⟨h.depAdj_sub hp hq v c, h.symm.depAdj_sub hq hp v c⟩⟩
+
+/-- non-vacuity: the chain written in another order (services reversed, a `depends_on` permuted) is the same project -/
+example : SameMaps ⟨[⟨0, []⟩, ⟨1, [⟨0, true⟩, ⟨9, false⟩]⟩], []⟩ ⟨[⟨1, [⟨9, false⟩, ⟨0, true⟩]⟩, ⟨0, []⟩], []⟩ := by
+  refine ⟨?_, ?_⟩ <;> simp <;> (intro d; exact Or.comm)
 
 /-! ### non-vacuity -/
 
